@@ -33,7 +33,7 @@ for d in sorted(glob.glob(os.path.join(ROOT, "seeded", "C*"))):
     except Exception:
         continue
     v = m.get("verified_by_coordinator", {})
-    det = v.get("detected_by") or (f"./check {pid}" if v.get("detected") else "NOT detected")
+    det = v.get("detected_by") or (f"./check {pid.split(chr(45))[0]}" if v.get("detected") else "NOT detected")
     seed.append(f"| {pid} | {short(m.get('summary', ''), 200)} | {short(m.get('needs', ''), 160)} | {det} |")
 blocks = {"REPAIRS": "\n".join(rep), "KNOWN": "\n".join(kn), "SEEDED": "\n".join(seed)}
 p = os.path.join(ROOT, "DESIGN.md")
